@@ -15,6 +15,11 @@ Sub-lattices (every one is a complete Cartesian product / complete finite set):
       performance-model / trajectory objects; the second inventory must be bit-identical to the
       one obtained on fresh objects with cleared caches (history independence)
   S5  one simulated ("flown") trajectory x fuels x spine
+  S6  construction route / key order of every container input: the same LTO and engine-database numbers
+      held in ThrustModeValues built positionally, from an array, from dicts in canonical and non-canonical
+      key order, filled item by item in reverse, produced by arithmetic or copy (S6a, through
+      compute_emissions); SpeciesValues / ThrustModeValues inputs of sum_total_emissions built by the same
+      routes (S6b). Same values, so the same expected inventory from the re-summation.
 plus `observe(case)` for the runner's order-independence pass.
 
 Isolation: every case starts from the state a fresh process has (functools caches of the emissions
@@ -42,7 +47,7 @@ RULE = (
     'complete products: S1 trajectory length x all phase splits x all zero/positive burn patterns x '
     'altitude/TAS/fuel-flow profiles x 12-configuration spine; S2 fuels x LTO sets x APU sets x aircraft '
     'classes x spine x 3 trajectories; S2b engine-database variants x PMnvol method x mode x altitude profile; S3 all 31 104 supported option combinations per trajectory; S4 all '
-    'ordered pairs of spine configurations on shared objects; S5 simulated flight x fuels x spine. A case is '
+    'ordered pairs of spine configurations on shared objects; S5 simulated flight x fuels x spine; S6 construction routes / key orders of the ThrustModeValues and SpeciesValues inputs. A case is '
     'non-trivial when an inventory was returned, >=1 segment burned fuel and >=3 species carry a non-zero '
     'amount; distinct = distinct case'
 )
@@ -128,6 +133,16 @@ APU_NAMES = ['real', 'none', 'unknown', 'gtcp30-54']
 # engine-database variants of the shipped entry (fields the PMnvol methods branch on)
 EDB_NAMES = ['real', 'mtf', 'other-type', 'nvpm-from-sn', 'sn-missing', 'sn-zero-low', 'nvpm-zero-idle', 'max-0.575', 'max-0.925']
 CLASS_NAMES = ['narrow', 'wide', 'small', 'freight']
+
+# construction routes of a ThrustModeValues holding the same four numbers (simplest first). A mapping has no
+# order as far as its meaning goes: every route must give the same inventory.
+TMV_ROUTES = [
+    'positional', 'array', 'dict-canonical', 'dict-reversed', 'dict-shuffled', 'items-reversed',
+    'arith-reversed', 'copy-reversed', 'mixed',
+]  # fmt: skip
+EDB_ROUTES = ['positional', 'dict-reversed', 'items-reversed']
+SV_ROUTES = ['dict-canonical', 'dict-reversed', 'items-reversed', 'update-shuffled']
+_SHUFFLE = [1, 3, 0, 2]  # approach, take-off, idle, climb
 
 # fixed trajectories for S2/S3/S4 (same schema as S1 cases)
 FIXED_TRAJ = {
@@ -269,6 +284,26 @@ def sublattices(tier, seed):
     # ---- S5
     cases = [{'traj': 'flown', 'fuel': f, 'lto': 'real', 'apu': 'real', 'cls': 'narrow', 'cfg': c} for f in ['jetA', 'SAF'] for c in SPINE_NAMES]
     subs.append({'name': 'S5 simulated flight x fuels x spine', 'axes': {'fuel': ['jetA', 'SAF'], 'cfg': SPINE_NAMES}, 'cases': cases})
+
+    # ---- S6a
+    cases = []
+    for t, lto, lr, er, cfg in itertools.product(['T1', 'T3'], ['real', 'increasing'], TMV_ROUTES, EDB_ROUTES, SPINE_NAMES):
+        cases.append({'traj': t, 'fuel': 'jetA', 'lto': lto, 'apu': 'real', 'cls': 'narrow', 'cfg': cfg, 'route': {'lto': lr, 'edb': er}})
+    subs.append({
+        'name': 'S6a container construction routes (LTO x EDB tables) x 2 LTO sets x spine x 2 trajectories',
+        'axes': {'traj': ['T1', 'T3'], 'lto': ['real', 'increasing'], 'lto_route': TMV_ROUTES, 'edb_route': EDB_ROUTES, 'cfg': SPINE_NAMES},
+        'cases': cases,
+    })  # fmt: skip
+
+    # ---- S6b
+    cases = []
+    for sv, tm, subset, apu_on, gse_on in itertools.product(SV_ROUTES, TMV_ROUTES, ['all', 'alternate', 'single'], [True, False], [True, False]):
+        cases.append({'sum': {'sv': sv, 'tmv': tm, 'subset': subset, 'apu_enabled': apu_on, 'gse_enabled': gse_on}})
+    subs.append({
+        'name': 'S6b sum_total_emissions: SpeciesValues routes x ThrustModeValues routes x species subsets x APU/GSE switches',
+        'axes': {'sv_route': SV_ROUTES, 'tmv_route': TMV_ROUTES, 'subset': ['all', 'alternate', 'single'], 'apu_enabled': [True, False], 'gse_enabled': [True, False]},
+        'cases': cases,
+    })  # fmt: skip
     return subs
 
 
@@ -293,6 +328,15 @@ def _load_shared():
     pm = ec.real_pm()
     _STATE['pm'] = pm
     _STATE['real_flows'] = [float(pm.lto.fuel_flow[m]) for m in ThrustMode]
+    lt = pm.lto
+    _STATE['real_lto'] = {
+        k: [float(getattr(lt, f)[m]) for m in ThrustMode]
+        for k, f in (('pct', 'thrust_pct'), ('ff', 'fuel_flow'), ('nox', 'EI_NOx'), ('hc', 'EI_HC'), ('co', 'EI_CO'))
+    }
+    _STATE['real_edb'] = {
+        f: [float(getattr(pm.edb, f)[m]) for m in ThrustMode]
+        for f in ('fuel_flow', 'CO_EI_matrix', 'HC_EI_matrix', 'EI_NOx_matrix', 'SN_matrix', 'nvPM_mass_matrix', 'nvPM_num_matrix', 'PR')
+    }
     base = env.load_fuel('conventional_jetA')
     d = base.model_dump()
     fuels = {'jetA': base, 'SAF': env.load_fuel('SAF')}
@@ -400,7 +444,72 @@ def _build_traj(case):
     return ec.make_traj(**arr), arr['fuel_mass'], arr['n_climb'], arr['n_descent']
 
 
+def _tmv(vals, route, k=0):
+    """A ThrustModeValues holding vals (idle, approach, climb, take-off) built by the named route."""
+    from AEIC.performance.types import ThrustMode
+    from AEIC.performance.types import ThrustModeValues as TMV
+
+    modes = list(ThrustMode)
+    vals = [float(v) for v in vals]
+    if route == 'mixed':  # every table of one data set built by a different route
+        route = ['dict-reversed', 'positional', 'items-reversed', 'dict-shuffled', 'arith-reversed', 'array', 'copy-reversed', 'dict-canonical'][k % 8]
+    rev = {modes[i]: vals[i] for i in reversed(range(4))}
+    if route == 'positional':
+        return TMV(*vals)
+    if route == 'array':
+        return TMV(np.array(vals))
+    if route == 'dict-canonical':
+        return TMV({modes[i]: vals[i] for i in range(4)})
+    if route == 'dict-reversed':
+        return TMV(rev)
+    if route == 'dict-shuffled':
+        return TMV({modes[i]: vals[i] for i in _SHUFFLE})
+    if route == 'items-reversed':
+        t = TMV(mutable=True)
+        for i in reversed(range(4)):
+            t[modes[i]] = vals[i]
+        t.freeze()
+        return t
+    if route == 'arith-reversed':
+        t = TMV(rev) * 1.0
+        t.freeze()
+        return t
+    if route == 'copy-reversed':
+        return TMV(rev).copy()
+    raise ValueError(route)
+
+
+def _routed_pm(case):
+    """Duck-typed model whose LTO and engine-database tables hold the usual numbers but are built by the
+    case's construction routes."""
+    import dataclasses
+
+    from AEIC.performance.types import LTOPerformance, ThrustMode
+    from AEIC.types import AircraftClass
+
+    base = _STATE['pm']
+    lr, er = case['route']['lto'], case['route']['edb']
+    spec = LTO_SETS[case.get('lto', 'real')]
+    if spec is None:
+        src = _STATE['real_lto']
+    else:
+        src = dict(ff=spec['ff'], nox=spec['nox'], hc=spec['hc'], co=spec['co'], pct=[7.0, 30.0, 85.0, 100.0])
+    ns = ec.duck_pm(apu='real', aircraft_class=AircraftClass(case.get('cls', 'narrow')))
+    ns.apu = _STATE['apus'][case.get('apu', 'real')]
+    ns.lto = LTOPerformance(
+        source='harness', ICAO_UID='X', rated_thrust=float(base.lto.rated_thrust),
+        thrust_pct=_tmv(src['pct'], lr, 0), fuel_flow=_tmv(src['ff'], lr, 1), EI_NOx=_tmv(src['nox'], lr, 2),
+        EI_HC=_tmv(src['hc'], lr, 3), EI_CO=_tmv(src['co'], lr, 4),
+    )  # fmt: skip
+    e0 = base.edb
+    fields = ['fuel_flow', 'CO_EI_matrix', 'HC_EI_matrix', 'EI_NOx_matrix', 'SN_matrix', 'nvPM_mass_matrix', 'nvPM_num_matrix', 'PR']
+    ns.edb = dataclasses.replace(e0, **{f: _tmv([_STATE['real_edb'][f][i] for i in range(4)], er, k) for k, f in enumerate(fields)})
+    return ns
+
+
 def _build_pm(case):
+    if 'route' in case:
+        return _routed_pm(case)
     from AEIC.types import AircraftClass
 
     lto, apu, cls = case.get('lto', 'real'), case.get('apu', 'real'), case.get('cls', 'narrow')
@@ -654,7 +763,83 @@ def _run_seq(case):
     return {'outcome': 'inventory-pair', 'nontrivial': _nontrivial(second, arr['fuel_mass']), 'violations': vio}
 
 
+def _sv(pairs, route):
+    """A SpeciesValues holding the (species, value) pairs built by the named route."""
+    from AEIC.types import SpeciesValues
+
+    pairs = list(pairs)
+    if route == 'dict-canonical':
+        return SpeciesValues(dict(pairs))
+    if route == 'dict-reversed':
+        return SpeciesValues(dict(reversed(pairs)))
+    if route == 'items-reversed':
+        sv = SpeciesValues()
+        for k, v in reversed(pairs):
+            sv[k] = v
+        return sv
+    if route == 'update-shuffled':
+        sv = SpeciesValues()
+        sv.update(SpeciesValues(dict(pairs[1::2])))
+        sv.update(SpeciesValues(dict(pairs[0::2])))
+        return sv
+    raise ValueError(route)
+
+
+def _sum_inputs(spec):
+    from AEIC.types import Species
+
+    sp = list(Species)
+    if spec['subset'] == 'alternate':
+        sp = sp[::2]
+    elif spec['subset'] == 'single':
+        sp = sp[3:4]
+    num = {}
+    for s in sp:
+        k = float(int(s))
+        num[s] = dict(traj=[k + 1.0, 2.0 * k + 0.5, 0.0, 7.25], lto=[k + 0.25, 3.0 * k + 1.0, 0.5 * k + 2.0, 11.0 + k], apu=1.5 * k + 0.125, gse=0.75 * k + 3.0)
+    return sp, num
+
+
+def _run_sum(case):
+    """sum_total_emissions fed with containers built by the case's routes; expected totals are plain sums of
+    the numbers that were put in."""
+    from vf import env
+
+    from AEIC.emissions.emission import sum_total_emissions
+    from AEIC.performance.types import ThrustMode
+    from AEIC.types import Species
+
+    spec = case['sum']
+    sp, num = _sum_inputs(spec)
+    opts = dict(ec.DEFAULTS, apu_enabled=spec['apu_enabled'], gse_enabled=spec['gse_enabled'], fuel='conventional_jetA')
+    try:
+        env.load_config(emissions=opts)
+        traj = _sv([(s, np.array(num[s]['traj'])) for s in sp], spec['sv'])
+        lto = _sv([(s, _tmv(num[s]['lto'], spec['tmv'], int(s))) for s in sp], spec['sv'])
+        apu = _sv([(s, num[s]['apu']) for s in sp], spec['sv'])
+        gse = _sv([(s, num[s]['gse']) for s in sp], spec['sv'])
+        tot = sum_total_emissions(trajectory=traj, lto=lto, apu=apu, gse=gse)
+        got = {s: float(tot[s]) if s in tot else 0.0 for s in Species}
+        lto_after = {s: [float(lto[s][m]) for m in ThrustMode] for s in sp}
+    except Exception as ex:
+        return _classify_raise('raise', ex, spec, True)
+    vio = []
+    for s in Species:
+        exp = 0.0
+        if s in num:
+            exp = sum(num[s]['traj']) + sum(num[s]['lto'])
+            exp += num[s]['apu'] if spec['apu_enabled'] else 0.0
+            exp += num[s]['gse'] if spec['gse_enabled'] else 0.0
+            if lto_after[s] != num[s]['lto']:
+                vio.append(V('input-mutated', f'sum_total_emissions changed LTO {s.name}: {num[s]["lto"]} -> {lto_after[s]}'))
+        if not balance.close(got[s], exp, rtol=1e-12, atol=1e-12):
+            vio.append(V('total-ne-sum-of-parts', f'sum_total_emissions {s.name}: total {got[s]} != parts {exp} ({spec})'))
+    return {'outcome': 'totals', 'nontrivial': True, 'violations': vio}
+
+
 def run_case(case):
+    if 'sum' in case:
+        return _run_sum(case)
     if 'seq' in case:
         return _run_seq(case)
     return _run_single(case)
@@ -702,6 +887,9 @@ def observe(case):
 
 
 def _observe(case):
+    if 'sum' in case:
+        r = _run_sum(case)
+        return {'outcome': r['outcome'], 'violations': [v['kind'] for v in r['violations']]}
     if 'seq' in case:
         k, res = _seq_eval(case)
         if k != 'ok':
